@@ -454,6 +454,15 @@ def addTets (g : Grid α) : Cav → List Int → St × Cav
     | (.ok, c) => addTets g c rest
     | r => r
 
+/-- add a list of tris the way the C's enlarge loops do: stop at the first status that is not `ok` and as soon as
+    the state is no longer `unknown` -/
+def addTris (g : Grid α) : Cav → List Int → St × Cav
+  | c, [] => (.ok, c)
+  | c, t :: rest =>
+    match addTri g c t with
+    | (.ok, c) => if c.state ≠ .unknown then (.ok, c) else addTris g c rest
+    | r => r
+
 /-! ### visibility -/
 
 section vis
